@@ -354,7 +354,8 @@ fn build_expr(
                 .collect();
             let written: Vec<hir::ExprId> = fields.iter().map(|(_, e)| *e).collect();
             if declared.len() == elab.args.len() && declared.len() == written.len() && declared != written {
-                let temp = |e: &hir::ExprId| format!("field{}/{}", e.idx, expr_id.idx);
+                // '#' cannot be written in an identifier, so no local of the program has this name
+                let temp = |e: &hir::ExprId| format!("field#{}/{}", e.idx, expr_id.idx);
                 let mut exprs = Vec::with_capacity(written.len() + 1);
                 for e in &written {
                     let Some(pos) = declared.iter().position(|d| d == e) else {
